@@ -130,3 +130,17 @@ package staking
 //@   ensures err != nil && !unavail(err) ==> api.GTreeW[old(api.TreeOf(ctx))] == old(api.GTreeW[api.TreeOf(ctx)])
 //@   ensures err != nil ==> api.GCommits == old(api.GCommits)
 //@   note every failing return leaves the tree the handler was entered with unwritten - including what the withdraw hook's subscribers wrote: the hook is invoked inside the transaction context and that context is committed only on success
+
+// ---- post-execution fee / nonce update (C09): mempool (CheckTx) state only ----
+
+//@ func Application.PostExecuteTx
+//@   props C09 C08
+//@   requires ctx != nil && tx != nil
+//@   ensures !old(api.IsCheck(ctx)) ==> err == nil && stakingState.GWrites == old(stakingState.GWrites) && mapEq(stakingState.GNonce, old(stakingState.GNonce))
+//@   note outside CheckTx the post-execution hook writes nothing: in block delivery the nonce is advanced and the fee charged exactly once, by AuthenticateAndPayFees before execution
+
+//@ func Application.AuthenticateTx
+//@   props C09
+//@   requires ctx != nil && tx != nil
+//@   precall state\.AuthenticateAndPayFees$ :: argIs(0, ctx) && argIs(1, api.Signer(ctx)) && argIs(2, tx.Nonce) && argIs(3, tx.Fee)
+//@   note the pre-execution authentication runs with the context's authenticated signer and the transaction's own nonce and fee
